@@ -891,6 +891,9 @@ GEN_SRC.update({n: gen_src(n) for n in ("SrcSmallInts", "SrcRankSelect", "SrcWav
 # genpm: search loops of the exact matchers (C08) and distance functions (C09)
 GEN_SRC.update({n: gen_src(n) for n in ("SrcShiftAndNext", "SrcKmpNext", "SrcHorspoolNext", "SrcBndmNext", "SrcBomNext")})
 GEN_SRC.update({n: gen_src(n) for n in ("SrcHamming",)})
+# genukk: the approximate matchers (C09/C10): Ukkonen, single-word Myers, block-based Myers (tools/rs2lean_pm.py)
+GEN_SRC.update({n: gen_src(n) for n in ("SrcUkkonen", "SrcMyersState", "SrcMyersSimple", "SrcMyersMatches")})
+GEN_SRC.update({n: gen_src(n) for n in ("SrcMyersLong",)})
 
 # genfm: the FM-index chain (C04/C05) — added separately so that concurrent edits of the line above merge trivially
 GEN_SRC.update({n: gen_src(n) for n in ("SrcOcc", "SrcLess", "SrcBackwardSearch", "SrcSampledGet")})
@@ -964,6 +967,11 @@ EXTRACTORS["C17"] = EXTRACTORS["C17"] + [GEN_SRC["SrcRankSelect"], GEN_SRC["SrcW
 EXTRACTORS["C08"] = EXTRACTORS["C08"] + [GEN_SRC[n] for n in ("SrcShiftAndNext", "SrcKmpNext", "SrcHorspoolNext", "SrcBndmNext", "SrcBomNext")]
 # genpm: C09 — Thm/C09.lean imports RbV.Thm.GenSrcHamming (…) and restates the theorems
 EXTRACTORS["C09"] = EXTRACTORS.get("C09", []) + [GEN_SRC[n] for n in ("SrcHamming",)]
+# genukk: C09 — Thm/C09.lean imports RbV.Thm.GenSrcUkkonen (…) and restates the theorems
+EXTRACTORS["C09"] = EXTRACTORS["C09"] + [GEN_SRC[n] for n in ("SrcUkkonen", "SrcMyersState", "SrcMyersSimple", "SrcMyersMatches")]
+# genukk: C10 — the columns the traceback reads are produced by the same `_step`; Thm/C10.lean restates the step theorem
+EXTRACTORS["C09"] = EXTRACTORS["C09"] + [GEN_SRC[n] for n in ("SrcMyersLong",)]
+EXTRACTORS["C10"] = EXTRACTORS.get("C10", []) + [GEN_SRC[n] for n in ("SrcMyersState", "SrcMyersSimple", "SrcMyersMatches")]
 
 def soft_modules(mods, what):
     """genfm: `lake build` of shape-dependent equality theorems "translated body = mirror model" that a property-preserving
